@@ -219,10 +219,15 @@ impl<A> Future for Addr<A> {
     type Output = Result<()>;
     fn poll(self: Pin<&mut Self>, cx: &mut std::task::Context<'_>) -> Poll<Self::Output> {
         log::trace!("polling actor");
-        self.get_mut()
-            .running
-            .poll_unpin(cx)
-            .map(|p| p.map_err(Into::into))
+        let this = self.get_mut();
+        // a `Shared` that has yielded its output can neither be polled nor be cloned and polled again:
+        // put an unpolled clone in its place so that this handle, its flags and its clones stay usable
+        let unpolled = this.running.clone();
+        let polled = this.running.poll_unpin(cx);
+        if polled.is_ready() {
+            this.running = unpolled;
+        }
+        polled.map(|p| p.map_err(Into::into))
     }
 }
 
